@@ -273,9 +273,7 @@ pub fn c02(tier: &str) -> ! {
         if t {
             run_sched(&mut rep, "multi-writer-crash-at-every-write/p2d4", &c02_multiwriter_programs(), (2, 4), 16, false, 2, Duration::from_secs(1500), own2);
         } else {
-            // (the program with a 140 kB value is left to the thorough tier: its crash images are large)
-            let progs: Vec<_> = c02_multiwriter_programs().into_iter().filter(|p| !p.name.contains("140k")).collect();
-            run_sched(&mut rep, "multi-writer-crash-at-every-write/p1d3", &progs, (1, 3), 4, false, 1, Duration::from_secs(15), own2);
+            run_sched(&mut rep, "multi-writer-crash-at-every-write/p1d3", &c02_multiwriter_programs(), (1, 3), 4, false, 1, Duration::from_secs(15), own2);
         }
     }
     for a in CRASH_ASSUMPTIONS {
